@@ -8,6 +8,7 @@
   A negative case index is Python indexing, not "out of range" (ledger F26: not claimed).
 -/
 import HugrVerif.Proofs.Build
+import HugrVerif.Proofs.PyEq
 
 namespace HugrVerif.Props.C13
 open HugrVerif HugrVerif.Build HugrVerif.Build.BuildState
@@ -302,6 +303,52 @@ theorem exit_with_unbuilt_cases (st : BuildState) (ci : Nat) (c : BRec) (hc : st
     cases hx2 : x.2 with
     | true => simp [hx2] at hnx
     | false => rfl
+
+/-! ## 3b. "disagree" does not depend on the order of presentation -/
+
+/-- **The comparison of rows the builders use (Python `==` on type rows) is an equivalence relation**: reflexive,
+    SYMMETRIC and transitive.  So whether two cases "disagree on their outputs", an exit branch "disagrees with the
+    established exit type" or a function's outputs "differ from its declared outputs" does not depend on which of
+    the two rows was given first (seeded change C13-13 made `Sum.__eq__` asymmetric: each builder then accepted a
+    unit sum against a general sum with as many variants in one order only). -/
+theorem rowEq_refl (a : List Ty) : rowEq a a = true := Ty.pyEqRow_refl a
+theorem rowEq_symm (a b : List Ty) : rowEq a b = rowEq b a := Ty.pyEqRow_symm a b
+theorem rowEq_trans (a b c : List Ty) (h1 : rowEq a b = true) (h2 : rowEq b c = true) : rowEq a c = true :=
+  Ty.pyEqRow_trans a b c h1 h2
+
+/-- A general sum compares equal to `UnitSum(n)` exactly when it has `n` variants, all without fields — the
+    identification the specification makes, and no other sum does. -/
+theorem unit_sum_lookalike (r : List (List Ty)) (n : Nat) :
+    Ty.pyEq (.sum r) (.unitSum n) = (r.length == n && r.all List.isEmpty) ∧
+    Ty.pyEq (.unitSum n) (.sum r) = (r.length == n && r.all List.isEmpty) := by
+  refine ⟨Ty.pyEq_sum_unit r n, ?_⟩
+  rw [Ty.pyEq_symm]; exact Ty.pyEq_sum_unit r n
+
+/-- non-vacuity of the look-alike pair of C13-13: `Option(Bool)` (a general sum with two variants) and `Bool` are
+    unequal in BOTH orders -/
+example : rowEq [.sum [[.unitSum 2], []]] [.unitSum 2] = false ∧ rowEq [.unitSum 2] [.sum [[.unitSum 2], []]] = false := by
+  simp [rowEq, Ty.pyEqRow, Ty.pyEq, emptyRows]
+
+/-- **Conditional cases, either order**: with the outputs `prev` established, a case with outputs `outs` is refused
+    exactly when the two rows differ — stated with the rows in the other order than the code compares them. -/
+theorem case_output_mismatch_iff_symm (st : BuildState) (ci : Nat) (c : BRec) (s : St) (sm : SumTy)
+    (oi prev outs : List Ty)
+    (hc : st.getB ci = .ok c) (hs : st.getHugr c.hid = .ok s)
+    (hop : nodeOp s c.parent.1 = .ok (.conditional sm oi (some prev))) :
+    condUpdateOutputs st ci outs = .error .conditionalError ↔ rowEq prev outs = false := by
+  rw [rowEq_symm prev outs]
+  exact case_output_mismatch_iff st ci c s sm oi prev outs hc hs hop
+
+/-- the verdict on a pair of case rows is the same whichever of the two cases set its outputs first -/
+theorem case_order_irrelevant (st st' : BuildState) (ci ci' : Nat) (c c' : BRec) (s s' : St) (sm sm' : SumTy)
+    (oi oi' a b : List Ty)
+    (hc : st.getB ci = .ok c) (hs : st.getHugr c.hid = .ok s)
+    (hop : nodeOp s c.parent.1 = .ok (.conditional sm oi (some a)))
+    (hc' : st'.getB ci' = .ok c') (hs' : st'.getHugr c'.hid = .ok s')
+    (hop' : nodeOp s' c'.parent.1 = .ok (.conditional sm' oi' (some b))) :
+    (condUpdateOutputs st ci b = .error .conditionalError ↔ condUpdateOutputs st' ci' a = .error .conditionalError) := by
+  rw [case_output_mismatch_iff st ci c s sm oi a b hc hs hop,
+    case_output_mismatch_iff st' ci' c' s' sm' oi' b a hc' hs' hop', rowEq_symm]
 
 /-! ## 4. an exit branch that disagrees with the established exit type -/
 
